@@ -16,6 +16,7 @@ CONSTANTS KeyLen,      \* keys are all bit strings of length <= KeyLen
           MaxNodes,    \* state constraint: at most this many tree nodes (root included)
           EmitActs,    \* print one JSON row per transition whose action is in this set
           EntryDepth,  \* maximal number of calls on one entry handle
+          UseAfterRemove, \* TRUE: also explore OccupiedEntry calls after its remove() (finding F7)
           ViewAcct     \* TRUE: states differing in arena length / free-list size are distinct
 
 VARIABLES m, abs, ev, ret, pan, aret, apan, hist, canon, drift
@@ -42,7 +43,12 @@ SeqsUpTo(S, n) == IF n = 0 THEN {<<>>}
                   ELSE {<<>>} \cup {<<x>> \o t : x \in {y \in S : y.o \notin Consuming /\ y.o # "o_remove"},
                                                 t \in SeqsUpTo(S, n - 1) \ {<<>>}}
                               \cup {<<x>> : x \in S}
+\* finding F7: an OccupiedEntry survives its own remove(); what the next call on it does
+UARSeqs == {<<[o |-> "o_remove", v |-> -1], x>> :
+               x \in {[o |-> "o_get", v |-> -1], [o |-> "o_remove", v |-> -1]}
+                      \cup {[o |-> o, v |-> v] : o \in {"o_get_mut", "o_insert"}, v \in Vals}}
 EntrySeqs(p) == SeqsUpTo(OpsFor(IF p.n \in StoredKeys THEN "O" ELSE "V"), EntryDepth)
+                  \cup (IF UseAfterRemove /\ p.n \in StoredKeys THEN UARSeqs ELSE {})
 
 EventsOf(a) ==
     CASE a = "Insert" -> {[a |-> a, p |-> p, v |-> v] : p \in Pfxs, v \in Vals}
